@@ -233,7 +233,7 @@ def gen_case(rng):
         elif r < 0.80:
             idx = [rng.randrange(max(cur_cap, 1)) for _ in range(rng.randint(0, 5))] if cur_cap else []
             ops.append({"op": "retrieve", "idx": idx, "rt": rng.choice(["dict", "tuple", "pandas"]),
-                        "sel": rng.choice(["all", "one", "some"])})
+                        "sel": rng.choice(["all", "one", "some", "dup"])})
         elif r < 0.86:
             ops.append({"op": "raw", "npz": rng.random() < 0.5})
         elif r < 0.92:
@@ -406,8 +406,13 @@ def run_case(case):
                     return Failure("corr", f"{where}: outcome impl={err} model={m}")
             elif kind == "retrieve":
                 idx = op["idx"]
-                sel = {"all": None, "one": fields[0], "some": [fields[-1], "index"]}[op["sel"]]
+                sel = {"all": None, "one": fields[0], "some": [fields[-1], "index"],
+                       "dup": [fields[0], "index", fields[0], fields[-1]]}[op["sel"]]
                 rt = op["rt"]
+                if op["sel"] == "dup":
+                    # a field list that names a field twice: the tuple form is documented as one array per requested
+                    # name, in order, so the repeats matter there
+                    rt = "tuple"
                 if rt == "pandas" and "c" in (fields if sel is None else sel):
                     rt = "dict"  # rank-2 fields are documented as unsupported by the pandas view
                 if op["sel"] == "one":
@@ -423,6 +428,13 @@ def run_case(case):
                     cols = {fields[0]: data}
                 elif rt == "tuple":
                     names = (fields + ["index"]) if sel is None else sel
+                    if len(data) != len(names):
+                        return Failure("oracle", f"{where}: retrieve(fields={names}, return_type='tuple') returned "
+                                       f"{len(data)} arrays, one per requested field is {len(names)}")
+                    for a_, b_ in zip(names, data):
+                        first = data[names.index(a_)]
+                        if a_ != "d" and np.asarray(first).tobytes() != np.asarray(b_).tobytes():
+                            return Failure("oracle", f"{where}: the arrays returned for the repeated field {a_} differ")
                     cols = dict(zip(names, data))
                 elif rt == "pandas":
                     cols = {}
